@@ -225,6 +225,16 @@ class Repo:
         self.expanded = {}       # helper qualname -> number of call sites expanded (extract-method normalisation)
         self.absorbed = set()    # helpers every reference to which was expanded
         self._load()
+        self.const_folds = self.default_binds = 0
+        if inline:
+            from . import inline as _inl0
+            # normal forms on the bare module trees (before anything is indexed): named constants and keyword
+            # parameters that the reference tree does not have
+            self.const_folds = _inl0.fold_new_constants(self.modules)
+            self.default_binds = _inl0.bind_unpassed_defaults(self.modules)
+            if self.const_folds or self.default_binds:
+                for m in self.modules.values():
+                    m.reset()
         self._index()
         if inline:
             from . import inline as _inl
